@@ -1,5 +1,6 @@
 /- Line-protocol driver: one JSON request per input line, one JSON reply per output line. -/
 import StubGen.Driver.Json
+import StubGen.Driver.ApiJson
 import StubGen.Model.Naming
 import StubGen.Model.Types
 import StubGen.Spec.Lex
@@ -22,6 +23,7 @@ def handle (j : Json) : Json :=
     | .error e => Json.mkObj [("ok", .bool false), ("err", .str e.name)]
     | .ok t => Json.mkObj [("ok", .bool true), ("todict", pyToJson t.toDict), ("hash", .str t.hashKey),
                            ("refl", .bool (t.pyEq t))]
+  | "gen" => runGen j
   | "eq" =>
     match AType.fromDict (jsonToPy (getJson j "a")), AType.fromDict (jsonToPy (getJson j "b")) with
     | .ok a, .ok b => Json.mkObj [("ok", .bool true), ("eq", .bool (a.pyEq b)), ("eqr", .bool (b.pyEq a)),
